@@ -164,15 +164,34 @@ class Path:
     def feasible(self):
         """False when the same atom is decided both ways (a syntactically infeasible path)."""
         seen = {}
+        equal_to = {}
         for t, pol in self.atoms():
             if t[0] in ("inloop", "loopbreak", "except"):
                 continue
             if seen.setdefault(t, pol) != pol:
                 return False
+            if t[0] == "const" and bool(t[1]) != pol:
+                return False
+            # x == K1 and x == K2 for two distinct constants cannot both hold
+            if pol and t[0] == "compare" and t[1] in (("==",), ("is",)) and len(t[2]) == 2:
+                a, b = t[2]
+                for x, k in ((a, b), (b, a)):
+                    if _constant_like(k) and not _constant_like(x):
+                        prev = equal_to.setdefault(x, k)
+                        if prev != k:
+                            return False
         return True
 
     def describe(self):
         return " & ".join(("" if pol else "not ") + "(" + show(t) + ")" for t, pol, _ in self.conds) or "true"
+
+
+def _constant_like(t):
+    if t[0] == "const":
+        return True
+    if t[0] == "attr" and t[1][0] == "global":
+        return True
+    return False
 
 
 def walk_effects(effects, deep=True, stack=()):
